@@ -1,4 +1,4 @@
-(* C19 -- the two places where the pinned nbdime deviates from the documented rule (finding F11), as theorems about
+(* C19 -- the place where nbdime still deviates from the documented rule (finding F11), as theorems about
    the model instantiated with the generated tables.  This file is imported ONLY by the marked block of Props/C19.v:
    once nbdime is repaired these statements become false (the build of this file fails) and the block is swapped for the
    unconditional one, see notes/C19.md. *)
@@ -12,7 +12,7 @@ From NB Require Import Sys.ConfigProofs.
 Import ListNotations.
 Local Open Scope list_scope.
 
-(* ---------- witnesses of the two known deviations (F11) ---------- *)
+(* ---------- witnesses (F11) ---------- *)
 Definition w_global_files : list json :=
   [JObj [(of_ascii "Global", JObj [(of_ascii "log_level", JStr (of_ascii "DEBUG"))])]].
 Definition w_server_files : list json :=
@@ -26,13 +26,11 @@ Proof.
   repeat split; try (vm_compute; tauto). vm_compute. discriminate.
 Qed.
 
-Lemma server_port_refuted_lemma :
-  exists files, wf_filesb files = true /\
-    effective (of_ascii "server") files [] (of_ascii "port") <> Ok (spec_effective (of_ascii "server") files [] (of_ascii "port")).
-Proof.
-  exists w_server_files. split; [vm_compute; reflexivity | vm_compute; discriminate].
-Qed.
-
+(* the Server.port deviation was repaired in /repo (layering: all class defaults, then all sections): it now resolves as documented *)
+Lemma server_port_as_documented :
+  effective (of_ascii "server") w_server_files [] (of_ascii "port") = Ok (spec_effective (of_ascii "server") w_server_files [] (of_ascii "port"))
+  /\ spec_effective (of_ascii "server") w_server_files [] (of_ascii "port") = JInt 9000.
+Proof. split; vm_compute; reflexivity. Qed.
 
 Lemma global_never_participates cn : participates kGlobal cn = false.
 Proof.
